@@ -398,6 +398,41 @@ def _deep_diff(a, b, path=''):
     return out
 
 
+def _model_state(r):
+    """what 'an identical model and identical results' is compared on: mesh and step requirement, per assembly the
+    flow rate, estimated outlet temperature, power, temperatures, pressure drop and peaks; the gap temperatures"""
+    out = {'z': np.array(r.z), 'req_dz': np.array([r.req_dz]), 'total_power': np.array([r.total_power]),
+           'flow_rate': np.array([r.flow_rate])}
+    for i, a in enumerate(r.assemblies):
+        out[f'asm{i}.flow_rate'] = np.array([a.flow_rate])
+        out[f'asm{i}.total_power'] = np.array([a.total_power])
+        if hasattr(a, '_estimated_T_out'):
+            out[f'asm{i}.estimated_T_out'] = np.array([a._estimated_T_out])
+        out[f'asm{i}.coolant'] = np.array(a.temp_coolant, dtype=float)
+        out[f'asm{i}.duct_mw'] = np.array(a.temp_duct_mw, dtype=float)
+        out[f'asm{i}.pressure_drop'] = np.array([a.pressure_drop], dtype=float)
+        out[f'asm{i}.peak_coolant'] = np.array(a._peak['cool'], dtype=float)
+        for j, reg in enumerate(a.region):
+            for k in ('ff', 'fs'):
+                v = getattr(reg, 'coolant_int_params', {}).get(k) if hasattr(reg, 'coolant_int_params') else None
+                if v is not None:
+                    out[f'asm{i}.region{j}.{k}'] = np.ravel(np.array(v, dtype=float))
+    if getattr(r, 'core', None) is not None and hasattr(r.core, 'coolant_gap_temp'):
+        out['gap'] = np.array(r.core.coolant_gap_temp, dtype=float)
+    return out
+
+
+def _state_diff(a, b):
+    bad = []
+    for k in sorted(set(a) | set(b)):
+        if k not in a or k not in b or a[k].shape != b[k].shape or not np.array_equal(a[k], b[k]):
+            d = ''
+            if k in a and k in b and a[k].shape == b[k].shape:
+                d = ' (max |diff| %.3e)' % float(np.max(np.abs(a[k] - b[k])))
+            bad.append(k + d)
+    return bad
+
+
 def dynamic_variant(name):
     """run-time frame contract on the real constructors for one generated problem"""
     sys.path.insert(0, _repo())
@@ -424,20 +459,23 @@ def dynamic_variant(name):
             diff = _deep_diff(snap, inp.data)
             res['readonly_after_postprocess'] = (not diff, '; '.join(diff[:6]))
         t1 = [a.temp_coolant.copy() for a in r1.assemblies]
+        s1 = _model_state(r1)
         try:
             r2 = dassh.Reactor(inp, path=wd, write_output=False)
             r2.temperature_sweep()
-            t2 = [a.temp_coolant.copy() for a in r2.assemblies]
-            same = all(np.array_equal(x, y) for x, y in zip(t1, t2)) and np.array_equal(r1.z, r2.z)
-            res['second_construction_identical'] = (bool(same), '' if same else 'temperatures or mesh differ')
+            if post:
+                r2.postprocess()
+            bad = _state_diff(s1, _model_state(r2))
+            res['second_construction_identical'] = (not bad, '' if not bad else 'differs in: ' + ', '.join(bad[:8]))
         except BaseException as e:
             res['second_construction_identical'] = (False, f'second Reactor(inp) raised {type(e).__name__}: {e}')
         inp_b = dassh.DASSH_Input(p)
         r3 = dassh.Reactor(inp_b, path=wd, write_output=False)
         r3.temperature_sweep()
-        t3 = [a.temp_coolant.copy() for a in r3.assemblies]
-        same = all(np.array_equal(x, y) for x, y in zip(t1, t3))
-        res['two_executions_bitwise_identical'] = (bool(same), '')
+        if post:
+            r3.postprocess()
+        bad = _state_diff(s1, _model_state(r3))
+        res['two_executions_bitwise_identical'] = (not bad, '' if not bad else 'differs in: ' + ', '.join(bad[:8]))
     except BaseException as e:
         res['runs'] = (False, f'{type(e).__name__}: {e}')
     finally:
